@@ -115,6 +115,32 @@ def main():
                 continue
             observe(tree, 'pristine', t)
             counts['pristine'] += 1
+            if impl == 'c' and not _embeds(rp):
+                # the same valid tree as a *stored* one, with different parts of it evicted: the checkers load what they
+                # need and accept (C; a tree with a non-root single-leaf node does not survive the store: finding D18)
+                from harness import minijar
+                jar = minijar.Jar(minijar.Store())
+                jar.add(t)
+                jar.commit()
+                ks_ = sorted(P.flatten(P.proj(t, emb2, is_set))[0])
+                for pattern in ('all', 'root', 'min', 'max', 'mid', 'walk-first'):
+                    jar.cache.minimize()
+                    if pattern == 'root':
+                        t._p_activate()
+                    elif pattern == 'min':
+                        t.minKey()
+                    elif pattern == 'max':
+                        t.maxKey()
+                    elif pattern == 'mid':
+                        emb2.key(ks_[len(ks_) // 2]) in t
+                    if pattern == 'walk-first':
+                        # check() first (it loads every node), _check() on the loaded tree
+                        wv = verdict(lambda: BTrees.check.check(t))
+                        pv = verdict(t._check)
+                        recs.append(dict(impl=impl, tree=tree, pv=pv, wv=wv, pristine=1, label='pristine'))
+                    else:
+                        observe(tree, 'pristine', t)
+                    counts['stored'] = counts.get('stored', 0) + 1
             # the same tree rebuilt from its state must get the same verdicts
             observe(tree, 'rebuilt')
             nl = len(corrupt.leaves(tree))
@@ -146,6 +172,15 @@ def main():
             counts['corrupted'] += 1
     embed.restore_sizes(old)
     json.dump(dict(recs=recs, counts=counts, problems=problems[:20]), open(sys.argv[2], 'w'))
+
+
+def _embeds(p, root=True):
+    """a non-root interior node whose only child is a leaf (its record embeds that leaf: finding D18)"""
+    if p['t'] == 'L':
+        return False
+    if not root and len(p['kids']) == 1 and p['kids'][0]['t'] == 'L':
+        return True
+    return any(_embeds(c, False) for c in p['kids'])
 
 
 def _noval(p):
